@@ -61,8 +61,9 @@ RELEVANT_PROBES = {
     "C08": ["xgrid_call", "xgrid_refused", "eqgrid_distinct", "twin_compared"] + PLACE,
     "C09": ["idx_in", "idx_edge", "idx_huge", "idx_wrap", "factor_inside", "moved_from_reuse", "post_failure_reuse",
             "sweep_points", "last_owner_task", "pin_taken", "pin_checked"] + PLACE,
-    "C10": ["moved_from_reuse", "post_failure_reuse", "self_assign", "self_iadd", "sweep_points"],
-    "C14": ["sweep_points", "post_failure_reuse", "self_assign", "self_iadd", "eqgrid_distinct"],
+    "C10": ["moved_from_reuse", "post_failure_reuse", "self_assign", "self_iadd", "sweep_points", "xvalue_operand"],
+    "C14": ["sweep_points", "post_failure_reuse", "self_assign", "self_iadd", "eqgrid_distinct", "nonconst_operand",
+            "xvalue_operand"],
     "C18": ["msg_sent", "msg_recv", "last_owner_task"],
 }
 QUICK_WALL_CAP = 60.0       # seconds of run time per flavour before no new chunk is handed out
